@@ -17,4 +17,23 @@ build() {
 }
 mkdir -p sim/target
 build release
-exec sim/target/release/bpsim "$@"
+case "${1:-}" in
+  C20)
+    # C20 runs twice: library at opt-level 0 (profile zcheck, the driver) and at release (child)
+    build zcheck
+    export BPSIM_PROFILE=zcheck BPSIM_OTHER_BIN="$BPSIM_ROOT/sim/target/release/bpsim" BPSIM_OTHER_PROFILE=release
+    exec sim/target/zcheck/bpsim "$@"
+    ;;
+  replay)
+    if grep -q '"property": "C20"' "${2:-/dev/null}" 2>/dev/null; then
+      build zcheck
+      BPSIM_PROFILE=zcheck sim/target/zcheck/bpsim "$@"; rc=$?
+      if [ $rc -ne 0 ]; then exit $rc; fi
+      BPSIM_PROFILE=release exec sim/target/release/bpsim "$@"
+    fi
+    exec sim/target/release/bpsim "$@"
+    ;;
+  *)
+    exec sim/target/release/bpsim "$@"
+    ;;
+esac
